@@ -583,6 +583,10 @@ func calculateHashes(numLeaves uint64, delHashes []Hash, proof Proof) (hashAndPo
 		maxPos, _ := maxPositionAtRow(row, totalRows, numLeaves)
 		for provePos > maxPos {
 			row++
+			if row > totalRows {
+				return hashAndPos{}, nil, fmt.Errorf("invalid proof. Position %d "+
+					"does not exist in an accumulator with %d leaves", provePos, numLeaves)
+			}
 			maxPos, _ = maxPositionAtRow(row, totalRows, numLeaves)
 		}
 
